@@ -64,6 +64,8 @@ func (g *rpGen) block(depth int, pfx string, n int) []Sx {
 			if m := g.mws(2); len(m) > 0 {
 				ss = append(ss, LS(append([]Sx{A("use")}, m...)))
 			}
+		case k == 8 && g.r.Chance(1, 2):
+			ss = append(ss, g.resource(pfx))
 		case k == 9 && depth == 0 && g.depthMax >= 2 && g.r.Chance(1, 3):
 			ss = append(ss, g.spareCapacity(pfx))
 		case k < 4 && depth < g.depthMax:
@@ -98,6 +100,32 @@ func (g *rpGen) block(depth int, pfx string, n int) []Sx {
 		}
 	}
 	return ss
+}
+
+// a REST resource registered in the current scope (Router.Resource): in the case text it is the group and the named route
+// that Resource stands for, so the model needs no new statement
+func (g *rpGen) resource(pfx string) Sx {
+	g.nextRt++
+	k := g.nextRt
+	mainID := 100 + k
+	g.hs = append(g.hs, L(I(mainID), L(ev(mainID*10))))
+	base, sub := g.r.Pick([]string{"/", "", "/"}), pfx
+	if g.r.Chance(1, 3) {
+		gi := 90 + g.r.Intn(5)
+		base, sub = fmt.Sprintf("/g%d/", gi), fmt.Sprintf("%s/g%d", pfx, gi)
+	}
+	kind, rpath, name, req := "rsi", "/", "rsi_index", sub+"/rsi"
+	if g.dynamic && g.r.Bool() {
+		kind, rpath, name, req = "rss", "{id}/", "rss_show", sub+"/rss/"+fmt.Sprint(g.r.Intn(3))
+	}
+	var later []Sx
+	if g.r.Chance(1, 3) {
+		later = g.mws(2)
+	}
+	rt := L(A("route"), SL([]string{"GET"}), S(rpath), I(mainID), L(), LS(later), S(name))
+	g.reqs = append(g.reqs, L(S("GET"), S(req), L()))
+	g.routeIx++
+	return L(A("group"), S(base+kind), LS(g.mws(2)), L(rt), A("res"))
 }
 
 // aliasing scenario: a group whose middleware slice gets spare capacity (argument + Use + Use), a sub-group that appends into
